@@ -34,12 +34,14 @@ public:
     }
 
     [[nodiscard]] Epoch get_begin_epoch() const {
+        YAKUSHIMA_VERIF_POINT(ATOMIC, this);
         return begin_epoch_.load(std::memory_order_acquire);
     }
 
     [[nodiscard]] garbage_collection& get_gc_info() { return gc_info_; }
 
     [[nodiscard]] bool get_running() const {
+        YAKUSHIMA_VERIF_POINT(ATOMIC, this);
         return running_.load(std::memory_order_acquire);
     }
 
